@@ -25,6 +25,30 @@ CLAIMED["C14"] = dict(
     text="Monotonicity of every coherent year x sub-part pairing is decided by enumerating every consecutive day pair of the whole datetime.date type and, rendered through the real format_version and comparison key, every day 2001..2099; the rejection guard and the 'never backwards' guard of incr are postconditions discharged for all inputs.",
     note=TB + "X is evaluation, not deduction (complete for the stated finite domain). strftime is evaluated, never axiomatised.",
 )
+CLAIMED["C01"] = dict(
+    category="proof",
+    technique="contract-based deductive verification: modular VCs over the real cli.test, cli.update, _is_valid_version, incr_dispatch, parse_version_info with an effect log; z3/cvc5",
+    text="Exit 0 of `test`/`update` is proved to be reachable only through the gate _is_valid_version, whose postcondition (accepted in full by the pattern, key strictly greater than the start version, unique when required) is proved from its body; parse_version_info is proved to return only for a full match; every other outcome is a non-zero exit with no event past the gate (no write, no VCS step).",
+    note=TB + "A-re: the regex engine is the uninterpreted prefix-match-length function; acceptance is defined from it. The comparison key is a total preorder (C16). click turns escaping exceptions into exit status 1 (A-click-exit).",
+)
+CLAIMED["C06"] = dict(
+    category="proof",
+    technique="contract-based deductive verification with an effect log: loop invariants over the symbolic list of configured files (z3)",
+    text="rewrite_files (v1 and v2) is proved to validate every configured file (existence, every pattern matched) before the first write: NoPatternMatch/missing-file outcomes have no Write event; _update is proved to run dirty check, rewrite, commit phase in that order, each only after the previous one succeeded, and to exit 1 on NoPatternMatch without any commit/tag/push.",
+    note=TB + "A-io (file model), rewrite_lines as an uninterpreted function of (patterns, version, lines) with a 'all patterns matched' predicate. I/O errors of the write itself are outside the property.",
+)
+CLAIMED["C09"] = dict(
+    category="proof",
+    technique="contract-based deductive verification with quantified specifications over the tag listing (z3, E-matching), element-wise VCs for the filters",
+    text="get_latest_vcs_version_tag is proved to return a greatest (w.r.t. the version key) tag of the listing in scope among those accepted in full by the pattern, or None when there is none; _update_cfg_from_vcs is proved to implement the default/global/branch rule; is_valid is proved total (only an uncompilable pattern can raise) and equal to the acceptance predicate; the gate proves uniqueness against the global listing.",
+    note=TB + "A-git: the tag listing is a function of the scope within one run; A-sort: list.sort(key, reverse) puts a key-maximal element first (needs the total preorder of C16). Uniqueness under --ignore-vcs-tag with default/global scope is the documented meaning of that flag ('ignore VCS tag invariant') and is not claimed.",
+)
+CLAIMED["C10"] = dict(
+    category="proof",
+    technique="contract-based deductive verification over an effect log of VCS/hook/file events, all flag and config combinations symbolic (z3)",
+    text="vcs.commit is proved to perform pre-hook, stage, commit, post-hook, tag, push in that order, each iff enabled (and commit on), stopping at the first failure, for git and hg command sets alike; hooks.run is proved to pass BUMPVER_OLD_VERSION/NEW_VERSION and exit 1 on failure; _parse_vcs_options rejects contradictions without effects; update is proved to issue nothing past the gate under --dry, to fetch only if asked, and to stop with a non-zero exit on every failure.",
+    note=TB + "A-proc: subprocess primitives either return or raise after the attempt; Popen pipes feed only log text. The loop over the configured paths is cut by an invariant (one add_path per path).",
+)
 _PENDING = "check not built yet in this round (work in progress, see DESIGN.md section 2)"
-NOT_APPLICABLE = {p: _PENDING for p in ["C01","C02","C03","C04","C06","C07","C08","C09","C10","C12","C13","C15","C16","C18","C19","C20"]}
+NOT_APPLICABLE = {p: _PENDING for p in ["C02","C03","C04","C07","C08","C12","C13","C15","C16","C18","C19","C20"]}
 NOTES = "Contract-based deductive verification of the real Python source (pyvc). See DESIGN.md."
